@@ -7,4 +7,5 @@ pub mod l2_checks;
 pub mod macro_l2;
 pub mod model;
 pub mod props;
+pub mod sched_checks;
 pub mod vals;
